@@ -112,6 +112,9 @@ func startVflow(dir string, ports e2ePorts, cfg e2eConfig, race bool) (*vflowPro
 	}
 	var sb strings.Builder
 	for k, v := range lines {
+		if e2eDropKeys[k] {
+			continue
+		}
 		sb.WriteString(k + ": " + v + "\n")
 	}
 	if err := os.WriteFile(filepath.Join(dir, "vflow.conf"), []byte(sb.String()), 0o644); err != nil {
